@@ -108,11 +108,11 @@ inline void run_single_fault(Engine& E, Rng& r, int cls, long case_index) {
                 const Elem* e = &v[c->start + j];
                 if (!e->sane() || e->v != expected_value(*c, j)) { vd.fail("wrong-value-after-failed-call", std::string(when) + ": " + rec_str(*c) + " element " + std::to_string(c->start + j) + " holds " + hex64(e->v) + "/" + hex64(e->chk)); return; }
             }
-            if (fc.outcome != O_OK) for (uint64_t i = size_before; i < sz && i < size_before + (fc.count ? fc.count : (uint64_t)1 << 20); i++) {
+            uint64_t growth = op_growth(p.ops[0][k], size_before);
+            if (fc.outcome != O_OK) for (uint64_t i = size_before; i < sz && i < size_before + growth; i++) {
                 Region* rg = cx->find((uintptr_t)&v[i]); if (!rg) continue; Slot* sh = rg->shadow.load(); if (!sh) continue;
                 size_t off = ((uintptr_t)&v[i] - rg->base.load()) / sizeof(Elem);
-                bool in_failed = !gtal_kind(fc.kind) ? i < size_before + p.ops[0][k].arg + (single_kind(fc.kind) ? 1 : 0) + (fc.kind == K_GROW_IL ? 3 : 0) : i < p.ops[0][k].arg;
-                if (sh[off].live.load() && in_failed) {
+                if (sh[off].live.load()) {
                     CallRec tmp = fc; tmp.start = size_before;
                     if (v[i].v != expected_value(tmp, i - size_before) || !v[i].sane()) { vd.fail("constructed-with-wrong-value", std::string(when) + ": element " + std::to_string(i) + " constructed by the failed call holds " + hex64(v[i].v)); return; }
                 }
